@@ -164,6 +164,9 @@ func (s inflSet) globalNames() []string {
 
 func (s inflSet) hasGlobals(p *Prog, names ...string) (missing []string) {
 	for _, n := range names {
+		if p.Globals[n] == nil && n == "mxj.trimRunes" {
+			n = "mxj.disableTrimWhiteSpace" // no cached cut set: the flag itself
+		}
 		g := p.Globals[n]
 		if g == nil || !s.globals[g] {
 			missing = append(missing, n)
